@@ -16,10 +16,27 @@ func opKind(op string) string {
 		return "write"
 	case "image.exportTar":
 		return "export"
-	case "error", "if.head", "ifnot.head", "foreach":
+	case "if.head", "ifnot.head", "foreach":
+		return "ctl"
+	}
+	if isErrorOp(op) {
 		return "ctl"
 	}
 	return "read"
+}
+
+func isErrorOp(op string) bool { return op == "error" || strings.HasPrefix(op, "error:") }
+
+// raise is the Lua text of the ways a script can abort.
+var raise = map[string]string{
+	"error":         `error("boom")`,
+	"error:table":   `error({code = 42, msg = "boom"})`,
+	"error:number":  `error(42)`,
+	"error:bool":    `error(true)`,
+	"error:nil":     `error()`,
+	"error:level":   `error("boom", 2)`,
+	"error:index":   `local nothing = nil; local x = nothing.field`,
+	"error:recurse": `local function deep(n) return 1 + deep(n + 1) end; deep(1)`,
 }
 
 type renderer struct {
@@ -204,8 +221,13 @@ func (rn *renderer) block(b *strings.Builder, ss []stmt, i int, ind string) {
 		st := ss[i]
 		k := i + 1
 		switch st.Op {
-		case "error":
-			fmt.Fprintf(b, "%sB(%d)\n%serror(\"boom\")\n", ind, k, ind)
+		case "error", "error:table", "error:number", "error:bool", "error:nil", "error:level", "error:index", "error:recurse":
+			if st.P == "p" {
+				fmt.Fprintf(b, "%sB(%d)\n%sdo\n%s  local ok, v1 = pcall(function() %s end)\n%s  if not ok then E(%d, type(v1)) end\n%send\n",
+					ind, k, ind, ind, raise[st.Op], ind, k, ind)
+			} else {
+				fmt.Fprintf(b, "%sB(%d)\n%sE(%d, \"raise\")\n%sdo %s end\n", ind, k, ind, k, ind, raise[st.Op])
+			}
 			i++
 		case "if.head", "ifnot.head":
 			neg := ""
